@@ -26,6 +26,33 @@ def _np(grid):
     return np.array(grid.array if hasattr(grid, "array") else grid, dtype="float64")
 
 
+def _slim_np(grid):
+    """coordinates of a grid-like in slim order, float64: (N,2) for 2-D grids, (N,) for a Grid1D.  A
+    profile function given a native-stored structure evaluates on its slim view."""
+    if isinstance(grid, np.ndarray) or not hasattr(grid, "slim"):
+        return np.array(grid, dtype="float64")
+    sl = grid.slim
+    return np.array(sl.array if hasattr(sl, "array") else sl, dtype="float64")
+
+
+def _conv(vals, dtype):
+    """container / dtype variants of one and the same list of real numbers"""
+    f = [[float(Fraction(v)) for v in p] if isinstance(p, (list, tuple)) else float(Fraction(p)) for p in vals]
+    if dtype == "int64":
+        return np.array(f).astype("int64")
+    if dtype == "int_list":
+        return [[int(v) for v in p] if isinstance(p, list) else int(p) for p in f]
+    if dtype == "float32":
+        return np.array(f, dtype="float32")
+    if dtype == "tuple":
+        # the documented form `[(y0,x0), (y1,x1)]`: a LIST of tuples (an outer tuple is not an accepted input:
+        # the constructors' signature is Union[np.ndarray, List])
+        return [tuple(p) if isinstance(p, list) else p for p in f]
+    if dtype == "ndarray":
+        return np.array(f, dtype="float64")
+    return f
+
+
 def _phi(c, y, x):
     c = list(c) + [0.0] * (6 - len(c))
     return c[0] + c[1] * y + c[2] * x + c[3] * (y * y) + c[4] * (y * x) + c[5] * (x * x)
@@ -73,7 +100,7 @@ def _mocks(aa):
                 self.angle = angle
 
         def _evaluate(self, grid):
-            g = _np(grid)
+            g = _slim_np(grid)
             self.seen.append((type(grid).__name__, g.copy()))
             pts = [(float(a), float(b)) for a, b in g.reshape(-1, 2)]
 
@@ -202,7 +229,7 @@ def _container_obs(c):
              "native": [qlist(p) for p in na.reshape(-1, 2)] if pair else qlist(na.ravel()),
              "_cls": name, "_scales": qlist(c.mask.pixel_scales), "_origin": qlist(c.mask.origin)}
         if name == "VectorYX2D":
-            o["_grid"] = [qlist(p) for p in _np(c.grid).reshape(-1, 2)]
+            o["_grid"] = [qlist(p) for p in _slim_np(c.grid).reshape(-1, 2)]
         return o
     if name in ("ArrayIrregular", "Grid2DIrregular", "VectorYX2DIrregular"):
         kind = {"ArrayIrregular": "array", "Grid2DIrregular": "grid", "VectorYX2DIrregular": "vector"}[name]
@@ -211,7 +238,7 @@ def _container_obs(c):
              "values": qlist(v.ravel()) if kind == "array" else [qlist(p) for p in v.reshape(-1, 2)],
              "_cls": name}
         if name == "VectorYX2DIrregular":
-            o["_grid"] = [qlist(p) for p in _np(c.grid).reshape(-1, 2)]
+            o["_grid"] = [qlist(p) for p in _slim_np(c.grid).reshape(-1, 2)]
         return o
     if name == "Array1D":
         m = np.asarray(c.mask)
@@ -280,7 +307,8 @@ class C17(PropertyCheck):
     assumptions = [
         "the user function returns one value (or (y,x) pair) per coordinate it receives (otherwise the "
         "container constructors raise, which the model reports as constructor_raised)",
-        "Grid2D inputs are slim-stored (the default), as profile functions index grid[:,0], grid[:,1]",
+        "a profile function handed a native-stored Grid2D / Grid1D evaluates on its slim view (the mocks do); "
+        "relocation cases use slim-stored uniform grids (the decorator multiplies grid by radii[:, None])",
     ]
 
     # ------------------------------------------------------------------ generation
@@ -304,6 +332,52 @@ class C17(PropertyCheck):
                 bits = "0" + bits[1:]
         return {"type": "oned", "bits": bits, "scale": q(rng.choice(gen.SCALES)),
                 "origin": q(gen.dyadic(rng, -3, 3, 2))}
+
+    def _vary(self, rng, g):
+        """round-3 hardening: the same mathematical grid through other storage forms, constructors,
+        dtypes and containers (the decorators must not care)"""
+        g = dict(g)
+        r = rng.random()
+        if g["type"] == "uniform":
+            bits = g["mask"]["bits"]
+            h, w = g["mask"]["h"], g["mask"]["w"]
+            if r < 0.3:
+                g["store_native"] = True
+            elif r < 0.45 and "1" not in bits:
+                g["ctor"] = "uniform"
+            elif r < 0.6 and "1" not in bits:
+                g["ctor"] = "no_mask"
+                g["dtype"] = rng.choice(["int64", "int_list", "float32", "float", "ndarray"])
+                ints = g["dtype"] in ("int64", "int_list")
+                g["coords"] = [[q(rng.randint(-9, 9) if ints else gen.dyadic(rng, -6, 6, 2)),
+                                q(rng.randint(-9, 9) if ints else gen.dyadic(rng, -6, 6, 2))] for _ in range(h * w)]
+                g["store_native"] = rng.random() < 0.3
+            elif r < 0.7:
+                g["ctor"] = "manual"  # Grid2D(values=<slim or native coordinates>, mask=mask, store_native=…)
+                g["store_native"] = rng.random() < 0.5
+                g["manual_native_input"] = rng.random() < 0.5
+        elif g["type"] == "irregular":
+            if r < 0.5:
+                g["dtype"] = rng.choice(["int64", "int_list", "float32", "tuple", "ndarray", "wrapped"])
+                if g["dtype"] in ("int64", "int_list"):
+                    g["pts"] = [[q(rng.randint(-9, 9)), q(rng.randint(-9, 9))] for _ in g["pts"]]
+        else:
+            bits = g["bits"]
+            n = len(bits)
+            if r < 0.35:
+                g["store_native"] = True
+            elif r < 0.5:
+                g["ctor"] = "manual"  # Grid1D(values=…, mask=mask, store_native=…)
+                g["store_native"] = rng.random() < 0.6
+                g["manual_native_input"] = rng.random() < 0.5
+            elif r < 0.6 and "1" not in bits:
+                g["ctor"] = rng.choice(["uniform", "uniform_from_zero"])
+            elif r < 0.75 and "1" not in bits:
+                g["ctor"] = "no_mask"
+                g["dtype"] = rng.choice(["int64", "int_list", "float32", "float", "ndarray", "tuple"])
+                ints = g["dtype"] in ("int64", "int_list")
+                g["xs"] = [q(rng.randint(-9, 9) if ints else gen.dyadic(rng, -6, 6, 2)) for _ in range(n)]
+        return g
 
     def _dispatch(self, rng, kind, grid, is_list, tag):
         pair = kind != "array"
@@ -334,6 +408,31 @@ class C17(PropertyCheck):
                     yield self._dispatch(rng, kind, self._uniform_grid(rng, m), is_list, f"disp_uniform_{mk}")
                     yield self._dispatch(rng, kind, self._irregular_grid(rng), is_list, "disp_irregular")
                     yield self._dispatch(rng, kind, self._oned_grid(rng), is_list, "disp_oned")
+                    # the same three through other storage forms / constructors / dtypes / containers
+                    h, w = rng.randint(1, 6), rng.randint(1, 6)
+                    m, mk = gen.random_mask(rng, h, w, kind=rng.choice([None, None, "all"]))
+                    yield self._dispatch(rng, kind, self._vary(rng, self._uniform_grid(rng, m)), is_list,
+                                         "disp_uniform_variant")
+                    yield self._dispatch(rng, kind, self._vary(rng, self._irregular_grid(rng)), is_list,
+                                         "disp_irregular_variant")
+                    g1 = self._oned_grid(rng, None if rng.random() < 0.6 else "0" * rng.randint(1, 6))
+                    yield self._dispatch(rng, kind, self._vary(rng, g1), is_list, "disp_oned_variant")
+        # degenerate sizes: no unmasked pixel at all, empty / single coordinate sets, one-pixel 1-D grids;
+        # masked 1-D grids in native storage (every mask of length <= 3)
+        for kind in kinds:
+            for (h, w) in ((1, 1), (1, 3), (2, 2)):
+                g = self._uniform_grid(rng, gen.full(h, w, True))
+                yield self._dispatch(rng, kind, g, False, "disp_uniform_all_masked")
+                yield self._dispatch(rng, kind, {**g, "store_native": True}, True, "disp_uniform_all_masked")
+            yield self._dispatch(rng, kind, self._irregular_grid(rng, 0), False, "disp_irregular_empty")
+            yield self._dispatch(rng, kind, self._irregular_grid(rng, 0), True, "disp_irregular_empty")
+            yield self._dispatch(rng, kind, self._vary(rng, self._irregular_grid(rng, 1)), False, "disp_irregular_single")
+            if kind != "vector":
+                for bits in ("1", "11", "0", "01", "10", "011", "101", "110", "010", "001", "100"):
+                    for native in (False, True):
+                        g = self._oned_grid(rng, bits)
+                        g["store_native"] = native
+                        yield self._dispatch(rng, kind, g, False, "disp_oned_small_native" if native else "disp_oned_small")
         n1 = 4 if tier == "quick" else 6
         for ln in range(1, n1 + 1):
             for b in range((1 << ln) - 1):
@@ -355,10 +454,22 @@ class C17(PropertyCheck):
                 grid = self._irregular_grid(rng)
             else:
                 grid = self._oned_grid(rng)
+            if rng.random() < 0.5:
+                grid = self._vary(rng, grid)
+                if grid.get("ctor") == "no_mask" and gt == "uniform":
+                    grid.pop("ctor"), grid.pop("coords", None), grid.pop("dtype", None)
             attrs = rng.choice(["both", "both", "both", "none", "centre_only", "missing"])
             centre = [q(gen.dyadic(rng, -2, 2, 2)), q(gen.dyadic(rng, -2, 2, 2))]
             angle = q(rng.choice([0, 30, 45, 90, -60, 180, 200, 17, 123, 270, 359]) + (
                 gen.dyadic(rng, 0, 1, 3) if rng.random() < 0.3 else 0))
+            # "set but falsy": centre (0.0, 0.0) / a zero component, angle 0.0 (the +90 must still apply)
+            r0 = rng.random()
+            if r0 < 0.15:
+                centre = ["0", "0"]
+            elif r0 < 0.25:
+                centre[rng.randrange(2)] = "0"
+            if rng.random() < 0.2:
+                angle = "0"
             pair = gt == "irregular" and rng.random() < 0.4
             yield {"tag": f"project_{gt}", "case": "project", "grid": grid, "attrs": attrs,
                    "centre": centre, "angle": angle, "func": _funcs(rng, 1, pair)[0]}
@@ -367,15 +478,16 @@ class C17(PropertyCheck):
             yield self._relocate_case(rng)
         # 6. transform nesting
         for depth in (1, 2, 3):
-            for flag in (False, True):
+            for flag in (False, True, "explicit_false"):
                 for _ in range(2 if tier == "quick" else 10):
-                    yield {"tag": "transform", "case": "transform", "depth": depth, "flag": flag,
+                    yield {"tag": "transform", "case": "transform", "depth": depth, "flag": flag is True,
+                           "explicit_false": flag == "explicit_false",
                            "centre": [q(gen.dyadic(rng, -3, 3, 2)), q(gen.dyadic(rng, -3, 3, 2))],
                            "pts": self._irregular_grid(rng)["pts"]}
 
     def _relocate_case(self, rng):
         rmin = rng.choice([Fraction(5, 2), Fraction(1), Fraction(1, 4), Fraction(5, 4), Fraction(1, 2 ** 20),
-                           Fraction(10)])
+                           Fraction(10), Fraction(0), Fraction(2)])
         centre = (gen.dyadic(rng, -2, 2, 2), gen.dyadic(rng, -2, 2, 2))
         gt = rng.choice(["ndarray", "irregular", "irregular", "uniform"])
         if gt == "uniform":
@@ -412,32 +524,94 @@ class C17(PropertyCheck):
                 p = (centre[0] + gen.dyadic(rng, -4, 4, 3) * rmin, centre[1] + gen.dyadic(rng, -4, 4, 3) * rmin)
                 p = (Fraction(float(p[0])), Fraction(float(p[1])))
             pts.append([q(p[0]), q(p[1])])
+        grid = {"type": gt, "pts": pts}
+        if rng.random() < 0.25:
+            # integer-dtype coordinates (int64 ndarray / int lists), integer centre
+            centre = (Fraction(rng.randint(-2, 2)), Fraction(rng.randint(-2, 2)))
+            ipts = [[q(int(centre[0]) + rng.randint(-4, 4)), q(int(centre[1]) + rng.randint(-4, 4))] for _ in pts]
+            if ipts and rng.random() < 0.5:
+                ipts[0] = [q(centre[0]), q(centre[1])]
+            grid = {"type": gt, "pts": ipts, "dtype": "int64" if gt == "ndarray" else rng.choice(["int64", "int_list"])}
+        elif rng.random() < 0.2:
+            grid["dtype"] = rng.choice(["float32", "tuple", "ndarray"]) if gt != "ndarray" else "float32"
+            if grid["dtype"] == "float32":
+                grid["pts"] = [[q(Fraction(float(np.float32(float(Fraction(a)))))),
+                                q(Fraction(float(np.float32(float(Fraction(b))))))] for a, b in pts]
         return {"tag": f"relocate_{gt}", "case": "relocate",
-                "grid": {"type": gt, "pts": pts}, "rmin": q(rmin), "centre": [q(centre[0]), q(centre[1])]}
+                "grid": grid, "rmin": q(rmin), "centre": [q(centre[0]), q(centre[1])]}
 
     # ------------------------------------------------------------------ implementation
     def _make_grid(self, aa, g):
         if g["type"] == "uniform":
-            m = np.array([c == "1" for c in g["mask"]["bits"]], dtype=bool).reshape(g["mask"]["h"], g["mask"]["w"])
-            mask = aa.Mask2D(mask=m, pixel_scales=tuple(float(Fraction(v)) for v in g["scales"]),
-                             origin=tuple(float(Fraction(v)) for v in g["origin"]))
-            return aa.Grid2D.from_mask(mask=mask)
+            h, w = g["mask"]["h"], g["mask"]["w"]
+            m = np.array([c == "1" for c in g["mask"]["bits"]], dtype=bool).reshape(h, w)
+            scales = tuple(float(Fraction(v)) for v in g["scales"])
+            origin = tuple(float(Fraction(v)) for v in g["origin"])
+            mask = aa.Mask2D(mask=m, pixel_scales=scales, origin=origin)
+            ctor = g.get("ctor", "from_mask")
+            if ctor == "uniform":
+                grid = aa.Grid2D.uniform(shape_native=(h, w), pixel_scales=scales, origin=origin)
+            elif ctor == "no_mask":
+                vals = _conv(g["coords"], g.get("dtype", "float"))
+                if isinstance(vals, np.ndarray):
+                    vals = vals.reshape(h, w, 2)
+                elif isinstance(vals, list):
+                    vals = [vals[y * w:(y + 1) * w] for y in range(h)]
+                grid = aa.Grid2D.no_mask(values=vals, pixel_scales=scales, origin=origin)
+            elif ctor == "manual":
+                base = aa.Grid2D.from_mask(mask=mask)
+                src = base.native if g.get("manual_native_input") else base
+                grid = aa.Grid2D(values=np.array(src.array), mask=mask, store_native=bool(g.get("store_native")))
+            else:
+                grid = aa.Grid2D.from_mask(mask=mask)
+            if g.get("store_native") and ctor != "manual":
+                grid = grid.native
+            return grid
         if g["type"] == "irregular":
-            return aa.Grid2DIrregular(values=[[float(Fraction(a)), float(Fraction(b))] for a, b in g["pts"]])
+            dt = g.get("dtype", "float")
+            if dt == "wrapped":
+                return aa.Grid2DIrregular(values=aa.Grid2DIrregular(values=_conv(g["pts"], "float")))
+            return aa.Grid2DIrregular(values=_conv(g["pts"], dt))
         if g["type"] == "ndarray":
-            return np.array([[float(Fraction(a)), float(Fraction(b))] for a, b in g["pts"]])
+            dt = g.get("dtype", "ndarray")
+            return np.array(_conv(g["pts"], dt if dt in ("int64", "float32") else "ndarray"))
         mask = np.array([c == "1" for c in g["bits"]], dtype=bool)
-        m1 = aa.Mask1D(mask=mask, pixel_scales=float(Fraction(g["scale"])), origin=(float(Fraction(g["origin"])),))
-        return aa.Grid1D.from_mask(mask=m1)
+        scale = float(Fraction(g["scale"]))
+        origin = (float(Fraction(g["origin"])),)
+        m1 = aa.Mask1D(mask=mask, pixel_scales=scale, origin=origin)
+        ctor = g.get("ctor", "from_mask")
+        if ctor == "uniform":
+            grid = aa.Grid1D.uniform(shape_native=(len(mask),), pixel_scales=scale, origin=origin)
+        elif ctor == "uniform_from_zero":
+            grid = aa.Grid1D.uniform_from_zero(shape_native=(len(mask),), pixel_scales=scale)
+        elif ctor == "no_mask":
+            grid = aa.Grid1D.no_mask(values=_conv(g["xs"], g.get("dtype", "float")), pixel_scales=scale, origin=origin)
+        elif ctor == "manual":
+            base = aa.Grid1D.from_mask(mask=m1)
+            src = base.native if g.get("manual_native_input") else base
+            return aa.Grid1D(values=np.array(src.array), mask=m1, store_native=bool(g.get("store_native")))
+        else:
+            grid = aa.Grid1D.from_mask(mask=m1)
+        if g.get("store_native"):
+            grid = grid.native
+        return grid
 
     @staticmethod
     def _in_pts(grid):
         """the coordinates of the grid object handed to the decorated call (an INPUT of the decorator):
         exact values of the doubles it holds.  For a Grid1D: its slim x values."""
-        a = _np(grid)
+        a = _slim_np(grid)
         if a.ndim == 1:
             return qlist(a)
         return [qlist(p) for p in a.reshape(-1, 2)]
+
+    @staticmethod
+    def _in_mask(grid):
+        """pixel scales and origin of the input grid's own mask (what the container must carry over)"""
+        mk = getattr(grid, "mask", None)
+        if mk is None or not hasattr(mk, "pixel_scales"):
+            return None
+        return {"scales": qlist(mk.pixel_scales), "origin": qlist(mk.origin)}
 
     def _grid_pts(self, g, obs=None):
         """the coordinates of the case's grid as Fractions: those of the actual grid object when the
@@ -481,7 +655,7 @@ class C17(PropertyCheck):
             tname, seen = obj.seen[0]
             out = [_container_obs(c) for c in res] if isinstance(res, list) else _container_obs(res)
             return {"seen": [qlist(p) for p in seen.reshape(-1, 2)], "out": out, "_seen_type": tname,
-                    "_in_pts": self._in_pts(grid),
+                    "_in_pts": self._in_pts(grid), "_in_mask": self._in_mask(grid),
                     "_same_mask": bool(getattr(res, "mask", None) is getattr(grid, "mask", 0))}
         if kind == "project":
             attrs = case["attrs"]
@@ -529,6 +703,8 @@ class C17(PropertyCheck):
             meth = {1: obj.level3, 2: obj.level2, 3: obj.level1}[case["depth"]]
             if case["flag"]:
                 meth(grid, is_transformed=True)
+            elif case.get("explicit_false"):
+                meth(grid, is_transformed=False)
             else:
                 meth(grid)
             tname, seen = obj.seen[0]
@@ -592,8 +768,11 @@ class C17(PropertyCheck):
             return False
         return all(self._close(g[0], e[0], tol) and self._close(g[1], e[1], tol) for g, e in zip(got, exp))
 
-    def _check_container(self, c, case, fn, pts, exact):
+    def _check_container(self, c, case, fn, pts, exact, in_mask=None):
         g = case["grid"]
+        if in_mask is None:
+            in_mask = ({"scales": g["scales"], "origin": g["origin"]} if g["type"] == "uniform"
+                       else {"scales": [g.get("scale", "1")], "origin": [g.get("origin", "0")]})
         kind = case["kind"]
         pair = kind != "array"
         # expectation: exact rational evaluation on the exact values of the input doubles; the code
@@ -616,8 +795,8 @@ class C17(PropertyCheck):
                 return f"container is {c.get('_cls')}, expected {want_cls}"
             if c["mask"] != g["mask"]:
                 return "container is not on the input grid's mask"
-            if [Fraction(v) for v in c["_scales"]] != [Fraction(v) for v in g["scales"]] or \
-                    [Fraction(v) for v in c["_origin"]] != [Fraction(v) for v in g["origin"]]:
+            if [Fraction(v) for v in c["_scales"]] != [Fraction(v) for v in in_mask["scales"]] or \
+                    [Fraction(v) for v in c["_origin"]] != [Fraction(v) for v in in_mask["origin"]]:
                 return "container's mask lost the pixel scales / origin of the input grid"
             if not same(c["slim"], exp):
                 return "slim entries are not f(grid) in slim order (entry k <-> coordinate k)"
@@ -644,8 +823,8 @@ class C17(PropertyCheck):
                 return f"container is {c.get('_cls')}, expected Array1D"
             if c["bits"] != g["bits"]:
                 return "Array1D is not on the input grid's 1-D mask"
-            if [Fraction(v) for v in c["_scales"]] != [Fraction(g["scale"])] or \
-                    [Fraction(v) for v in c["_origin"]] != [Fraction(g["origin"])]:
+            if [Fraction(v) for v in c["_scales"]] != [Fraction(v) for v in in_mask["scales"]] or \
+                    [Fraction(v) for v in c["_origin"]] != [Fraction(v) for v in in_mask["origin"]]:
                 return "Array1D's mask lost the pixel scale / origin"
             if not same(c["slim"], exp):
                 return "1-D entries are not f evaluated along the projected line, entry k <-> coordinate k"
@@ -694,13 +873,13 @@ class C17(PropertyCheck):
                 if not isinstance(out, list) or len(out) != len(case["funcs"]):
                     return False, "list result not wrapped element by element"
                 for c, fn in zip(out, case["funcs"]):
-                    d = self._check_container(c, case, fn, pts, exact)
+                    d = self._check_container(c, case, fn, pts, exact, obs.get("_in_mask"))
                     if d:
                         return False, "list element: " + d
                 return True, ""
             if isinstance(out, list):
                 return False, "single result wrapped as a list"
-            d = self._check_container(out, case, case["funcs"][0], pts, exact)
+            d = self._check_container(out, case, case["funcs"][0], pts, exact, obs.get("_in_mask"))
             return (d is None), (d or "")
         if isinstance(obs, dict) and "err" in obs:
             return False, f"implementation raised {obs}"
